@@ -41,16 +41,16 @@ mutual
       simp only [compile]; simp at h ⊢; omega
     | .seq es, ko, pd, pmk, st => by simpa [compile] using compileSeq_mono env es ko pd pmk st
     | .peekFor e, ko, pd, pmk, st => by
-      have h := compile_mono env e ko pd pmk { st with label := st.label + 1 }
+      have h := compile_mono env e ko false false { st with label := st.label + 1 }
       simp only [compile]; simp at h ⊢; omega
     | .peekNot e, ko, pd, pmk, st => by
-      have h := compile_mono env e st.label pd pmk { st with label := st.label + 1 }
+      have h := compile_mono env e st.label false false { st with label := st.label + 1 }
       simp only [compile]; simp at h ⊢; omega
     | .query e, ko, pd, pmk, st => by
       have h := compile_mono env e st.label pd pmk { st with label := st.label + 2 }
       simp only [compile]; simp at h ⊢; omega
     | .star e, ko, pd, pmk, st => by
-      have h := compile_mono env e (st.label + 1) pd pmk { st with label := st.label + 2 }
+      have h := compile_mono env e (st.label + 1) false false { st with label := st.label + 2 }
       simp only [compile]; simp at h ⊢; omega
     | .plus e, ko, pd, pmk, st => by
       have h1 := compile_mono env e ko false false { st with label := st.label + 2 }
